@@ -1,0 +1,19 @@
+//go:build verif
+
+package keeper
+
+// Contracts for the verification machinery in /verif (comment-only file; no code).
+//
+// verif:import sdk github.com/cosmos/cosmos-sdk/types
+// verif:import types github.com/teleport-network/teleport/x/rvesting/types
+// verif:spec amountOf(c sdk.Coins, d string) MathInt
+
+// InitGenesis runs outside transaction recovery (C15). Its precondition is exactly what
+// types.ValidateGenesis establishes ([params], [from]) plus "the funding account can pay",
+// which no genesis validation can see (cross-module; recorded as a known finding, DESIGN section 10 #18).
+// verif:func (Keeper).InitGenesis
+//@ requires [validated] rewardValid(genesisState.Params.PerBlockReward)
+//@ requires [from-ok]   len(genesisState.From) != 0 ==> errof(sdk.AccAddressFromBech32(genesisState.From)) == nil
+//@ modifies params(ctx)
+//@ modifies bank(ctx)
+//@ nopanic
